@@ -94,6 +94,58 @@ type tStmt struct {
 	Want    *MT    `json:"want,omitempty"` // for probes: expected type (nil = grey)
 	RetKind string `json:"ret_kind,omitempty"`
 	Tainted bool   `json:"tainted,omitempty"` // depends on an unknown value
+	// for probes of nested arrays: the (array depth, class) pairs the printed type
+	// must consist of, whatever way ti merges the inner arrays
+	Leaves []string `json:"leaves,omitempty"`
+}
+
+// typeLeaves flattens a printed type into its sorted, deduplicated
+// "depth:Class" pairs; Union<> adds no depth, Array<> one level.
+func typeLeaves(s string) ([]string, bool) {
+	var out []string
+	depth := 0
+	var stack []bool // true = Array
+	word := ""
+	flush := func() {
+		if word != "" {
+			out = append(out, fmt.Sprintf("%d:%s", depth, word))
+			word = ""
+		}
+	}
+	for i := 0; i < len(s); i++ {
+		ch := s[i]
+		switch {
+		case ch == '<':
+			isArr := word == "Array"
+			if !isArr && word != "Union" {
+				return nil, false
+			}
+			word = ""
+			stack = append(stack, isArr)
+			if isArr {
+				depth++
+			}
+		case ch == '>':
+			flush()
+			if len(stack) == 0 {
+				return nil, false
+			}
+			if stack[len(stack)-1] {
+				depth--
+			}
+			stack = stack[:len(stack)-1]
+		case ch == ' ':
+			flush()
+		default:
+			word += string(ch)
+		}
+	}
+	flush()
+	if len(stack) != 0 {
+		return nil, false
+	}
+	sort.Strings(out)
+	return dedup(out), true
 }
 
 type typedCase struct {
@@ -149,6 +201,10 @@ func literalOfClass(r *RNG, cl string) (string, MT) {
 	return "nil", mt("NilClass")
 }
 
+var scalarClasses = []string{"Integer", "String", "Float", "Symbol", "NilClass", "Bool"}
+
+var plainMethodRe = regexp.MustCompile(`^[a-z_][a-z0-9_]*[?!]?$`)
+
 type tVar struct {
 	name string
 	ty   MT
@@ -196,7 +252,12 @@ type callJudgement struct {
 }
 
 // judgeCall applies the documented meaning of the declarations.
-func judgeCall(model *CfgModel, recv MT, method string, args []MT, isStatic bool, staticClass string) callJudgement {
+func judgeCall(model *CfgModel, recv MT, method string, args []MT, isStatic bool, staticClass string, kw map[string]MT) callJudgement {
+	for _, a := range kw {
+		if a.Unknown {
+			return callJudgement{verdict: "grey"}
+		}
+	}
 	if recv.Unknown && !isStatic {
 		return callJudgement{verdict: "grey"}
 	}
@@ -229,13 +290,28 @@ func judgeCall(model *CfgModel, recv MT, method string, args []MT, isStatic bool
 		declared++
 		classOK := false
 		for _, d := range decls {
-			hasKw, hasBlock := false, len(d.BlockParams) > 0
-			for _, p := range d.Params {
-				if p.Key != "" {
-					hasKw = true
+			hasBlock := len(d.BlockParams) > 0
+			// keywords: every passed key is declared and every required key is passed,
+			// otherwise the documentation does not decide
+			declaredKw := map[string]*ModelParam{}
+			kwUndecided := false
+			for pi := range d.Params {
+				if p := &d.Params[pi]; p.Key != "" {
+					declaredKw[p.Key] = p
+					if _, passed := kw[p.Key]; !passed && !p.Default {
+						kwUndecided = true
+					}
+					if p.Rest {
+						kwUndecided = true
+					}
 				}
 			}
-			if hasKw || hasBlock {
+			for k := range kw {
+				if declaredKw[k] == nil {
+					kwUndecided = true
+				}
+			}
+			if kwUndecided || hasBlock {
 				grey = true
 				continue
 			}
@@ -246,6 +322,20 @@ func judgeCall(model *CfgModel, recv MT, method string, args []MT, isStatic bool
 			anyArityAdmits = true
 			// positional binding left to right; rest parameter types are not judged
 			typesOK, typesNone := true, false
+			for k, a := range kw {
+				all, none, g := paramAccepts(declaredKw[k].Type, a)
+				if g {
+					grey = true
+					typesOK = false
+					continue
+				}
+				if !all {
+					typesOK = false
+				}
+				if none {
+					typesNone = true
+				}
+			}
 			pi := 0
 			for ai, a := range args {
 				var p *ModelParam
@@ -427,7 +517,6 @@ func genTypedProgram(r *RNG, model *CfgModel, userClasses []*GClass, n int) []*t
 		add(&tStmt{Text: "dbtp " + last.name, Kind: "probe", Want: &w, RetKind: "literal"})
 	}
 	tainted := false
-	scalarClasses := []string{"Integer", "String", "Float", "Symbol", "NilClass", "Bool"}
 	isScalar := func(t MT) bool {
 		if t.Unknown || len(t.Atoms) == 0 {
 			return false
@@ -472,7 +561,74 @@ func genTypedProgram(r *RNG, model *CfgModel, userClasses []*GClass, n int) []*t
 		add(&tStmt{Text: "dbtp " + text, Kind: "probe", Want: &w, RetKind: kind, Tainted: tainted})
 	}
 	collOp := func() {
-		switch r.Intn(7) {
+		switch r.Intn(10) {
+		case 7: // nested array literal, probed as a whole and through indexing
+			var leaves []string
+			var lit func(d, max int) string
+			lit = func(d, max int) string {
+				n := 1 + r.Intn(2)
+				var parts []string
+				for e := 0; e < n; e++ {
+					if d < max && (e == 0 || r.Bool()) {
+						parts = append(parts, lit(d+1, max))
+					} else {
+						cl := Pick(r, []string{"Integer", "String", "Float", "Symbol"})
+						l, _ := literalOfClass(r, cl)
+						parts = append(parts, l)
+						leaves = append(leaves, fmt.Sprintf("%d:%s", d, cl))
+					}
+				}
+				return "[" + strings.Join(parts, ", ") + "]"
+			}
+			max := 2 + r.Intn(2)
+			text := "[" + lit(2, max) + ", " + lit(2, max) + "]"
+			v := newVar(MT{Unknown: true})
+			add(&tStmt{Text: v.name + " = " + text, Kind: "coll", Feature: "nested-array", Tainted: tainted})
+			sort.Strings(leaves)
+			leaves = dedup(leaves)
+			add(&tStmt{Text: "dbtp " + v.name, Kind: "probe", RetKind: "nested-array", Leaves: leaves, Tainted: tainted})
+			// one level of indexing: every pair is one level shallower
+			var inner []string
+			for _, l := range leaves {
+				var d int
+				var cl string
+				fmt.Sscanf(strings.Replace(l, ":", " ", 1), "%d %s", &d, &cl)
+				inner = append(inner, fmt.Sprintf("%d:%s", d-1, cl))
+			}
+			sort.Strings(inner)
+			add(&tStmt{Text: fmt.Sprintf("dbtp %s[%d]", v.name, r.Intn(2)), Kind: "probe", RetKind: "nested-index", Leaves: dedup(inner), Tainted: tainted})
+			if r.Bool() {
+				cl := Pick(r, []string{"Integer", "String", "Float", "Symbol"})
+				l, _ := literalOfClass(r, cl)
+				d := 2 + r.Intn(max-1)
+				g := l
+				for k := 1; k < d; k++ {
+					g = "[" + g + "]"
+				}
+				op := v.name + " << " + g
+				if r.Bool() {
+					op = v.name + ".push(" + g + ")"
+				}
+				add(&tStmt{Text: op, Kind: "coll", Feature: "nested-growth", Tainted: tainted})
+				grown := dedup(sortedCopy(append(append([]string{}, leaves...), fmt.Sprintf("%d:%s", d, cl))))
+				add(&tStmt{Text: "dbtp " + v.name, Kind: "probe", RetKind: "nested-growth", Leaves: grown, Tainted: tainted})
+			}
+		case 8: // hashes inside a hash / inside an array, distinct keys
+			c1, c2 := Pick(r, scalarClasses), Pick(r, scalarClasses)
+			l1, t1 := literalOfClass(r, c1)
+			l2, t2 := literalOfClass(r, c2)
+			v := newVar(MT{Unknown: true})
+			if r.Bool() {
+				add(&tStmt{Text: fmt.Sprintf("%s = {a: {b: %s}, c: {d: %s}}", v.name, l1, l2), Kind: "coll", Feature: "nested-hash", Tainted: tainted})
+				probe(v.name+"[:a][:b]", t1, "nested-hash")
+				probe(v.name+"[:c][:d]", t2, "nested-hash")
+			} else {
+				add(&tStmt{Text: fmt.Sprintf("%s = [{a: %s}, {b: %s}]", v.name, l1, l2), Kind: "coll", Feature: "array-of-hashes", Tainted: tainted})
+				probe(v.name+"[0][:a]", t1, "array-of-hashes")
+				probe(v.name+"[1][:b]", t2, "array-of-hashes")
+			}
+		case 9:
+			fallthrough
 		case 0: // array literal
 			var texts, atoms []string
 			ne := 1 + r.Intn(3)
@@ -586,17 +742,60 @@ func genTypedProgram(r *RNG, model *CfgModel, userClasses []*GClass, n int) []*t
 		var method string
 		var decl *ModelMethod
 		cl := Pick(r, recv.ty.Atoms)
-		if mc := model.Classes["Builtin::"+cl]; mc != nil && len(mc.Instance) > 0 && !r.Chance(1, 10) {
-			names := make([]string, 0, len(mc.Instance))
-			for nm := range mc.Instance {
-				if regexp.MustCompile(`^[a-z_][a-z0-9_]*[?!]?$`).MatchString(nm) {
-					names = append(names, nm)
+		if mc := model.Classes["Builtin::"+cl]; mc != nil && !r.Chance(1, 10) {
+			// own methods and those of the configured ancestors
+			nameSet := map[string]bool{}
+			var walk func(c *ModelClass, depth int)
+			walk = func(c *ModelClass, depth int) {
+				if c == nil || depth > 6 {
+					return
 				}
+				for nm := range c.Instance {
+					if plainMethodRe.MatchString(nm) {
+						nameSet[nm] = true
+					}
+				}
+				for _, e := range c.Extends {
+					walk(model.Classes["Builtin::"+e], depth+1)
+				}
+			}
+			walk(mc, 0)
+			if r.Chance(1, 3) {
+				// what every object answers (Object is class "" of the configuration)
+				nameSet = map[string]bool{}
+				walk(model.Classes["Builtin::"], 6)
+			}
+			names := make([]string, 0, len(nameSet))
+			for nm := range nameSet {
+				names = append(names, nm)
 			}
 			sort.Strings(names)
 			if len(names) > 0 {
 				method = Pick(r, names)
-				decl = Pick(r, mc.Instance[method])
+				if r.Chance(1, 3) {
+					// prefer a method that declares two or more keywords
+					var kwNames []string
+					for _, nm := range names {
+						for _, d := range model.Lookup(cl, nm, false) {
+							nk := 0
+							for _, p := range d.Params {
+								if p.Key != "" {
+									nk++
+								}
+							}
+							if nk >= 2 {
+								kwNames = append(kwNames, nm)
+								break
+							}
+						}
+					}
+					if len(kwNames) > 0 {
+						method = Pick(r, kwNames)
+					}
+				}
+				if decls := model.Lookup(cl, method, false); len(decls) > 0 {
+					decl = Pick(r, decls)
+				}
 			}
 		}
 		if method == "" {
@@ -642,6 +841,21 @@ func genTypedProgram(r *RNG, model *CfgModel, userClasses []*GClass, n int) []*t
 				}
 			}
 			switch {
+			case want != nil && want.Untyped && r.Bool():
+				// the parameter takes anything: pass a union of two arbitrary classes
+				a, b := Pick(r, scalarClasses), Pick(r, scalarClasses)
+				if a == b {
+					b = "Symbol"
+					if a == "Symbol" {
+						b = "Integer"
+					}
+				}
+				la, _ := literalOfClass(r, a)
+				lb, _ := literalOfClass(r, b)
+				uv := newVar(mt(a, b))
+				add(&tStmt{Text: fmt.Sprintf("%s = flag ? %s : %s", uv.name, la, lb), Kind: "assign-union"})
+				argTexts = append(argTexts, uv.name)
+				argTypes = append(argTypes, uv.ty)
 			case want != nil && len(want.Atoms) > 0 && want.Elem == nil && !r.Chance(1, 5):
 				// a fitting value: a literal, a variable of that class, or a union of accepted classes
 				acl := Pick(r, want.Atoms)
@@ -686,7 +900,35 @@ func genTypedProgram(r *RNG, model *CfgModel, userClasses []*GClass, n int) []*t
 				}
 			}
 		}
-		j := judgeCall(model, recv.ty, method, argTypes, false, "")
+		// keyword arguments of the chosen declaration
+		var kwTypes map[string]MT
+		if decl != nil {
+			for pi := range decl.Params {
+				p := &decl.Params[pi]
+				if p.Key == "" || p.Rest || (p.Default && r.Bool()) {
+					continue
+				}
+				var l string
+				var t MT
+				if len(p.Type.Atoms) > 0 && p.Type.Elem == nil && !r.Chance(1, 3) {
+					l, t = valueOf(Pick(r, p.Type.Atoms))
+				} else {
+					l, t = valueOf(Pick(r, classes))
+				}
+				if kwTypes == nil {
+					kwTypes = map[string]MT{}
+				}
+				kwTypes[p.Key] = t
+				argTexts = append(argTexts, p.Key+": "+l)
+			}
+			if len(kwTypes) > 1 && r.Bool() {
+				// callers may write keywords in any order
+				n := len(argTexts) - len(kwTypes)
+				kws := argTexts[n:]
+				kws[0], kws[len(kws)-1] = kws[len(kws)-1], kws[0]
+			}
+		}
+		j := judgeCall(model, recv.ty, method, argTypes, false, "", kwTypes)
 		call := recv.name + "." + method
 		if len(argTexts) > 0 {
 			call += "(" + strings.Join(argTexts, ", ") + ")"
@@ -703,6 +945,9 @@ func genTypedProgram(r *RNG, model *CfgModel, userClasses []*GClass, n int) []*t
 		recvTyAtCall := recv.ty
 		res := newVar(MT{Unknown: true})
 		feature := "recv=" + recvKind(recvTyAtCall) + ":args=" + argShape(argTypes)
+		if len(kwTypes) > 0 {
+			feature += fmt.Sprintf(":kw=%d", len(kwTypes))
+		}
 		if invalidate {
 			recv.ty = MT{Unknown: true}
 		}
@@ -727,7 +972,39 @@ func genTypedProgram(r *RNG, model *CfgModel, userClasses []*GClass, n int) []*t
 			continue
 		}
 		st := &tStmt{Text: res.name + " = " + call, Kind: "call", Verdict: j.verdict, Reason: j.reason, Feature: feature, Tainted: tainted}
+		var cont []string
+		switch {
+		case len(argTexts) >= 2 && r.Chance(1, 4):
+			// the argument list broken over lines: the call is the line it starts on
+			st.Text = res.name + " = " + recv.name + "." + method + "(" + argTexts[0] + ","
+			cont = []string{"  " + strings.Join(argTexts[1:], ", ") + ")"}
+			if len(argTexts) >= 3 && r.Bool() {
+				cont = []string{"  " + argTexts[1] + ",", "  " + strings.Join(argTexts[2:], ", ") + ")"}
+			}
+			st.Feature = "multiline:" + feature
+		case len(argTexts) >= 1 && r.Chance(1, 8):
+			st.Text = res.name + " = " + recv.name + "." + method + "("
+			cont = []string{"  " + strings.Join(argTexts, ", "), ")"}
+			st.Feature = "multiline:" + feature
+		case j.verdict == "fail" && j.reason == "undefined" && r.Chance(1, 3):
+			// an undefined method called with a block of several lines
+			if r.Bool() {
+				st.Text = res.name + " = " + call + " do |q|"
+				cont = []string{"  q", "end"}
+			} else {
+				st.Text = res.name + " = " + call + " { |q|"
+				cont = []string{"  q", "}"}
+			}
+			st.Feature = "multiline-block:" + feature
+		}
 		add(st)
+		for _, l := range cont {
+			k := "cont-ok"
+			if j.verdict != "ok" {
+				k = "open"
+			}
+			add(&tStmt{Text: l, Kind: k, Feature: st.Feature, Tainted: tainted})
+		}
 		switch j.verdict {
 		case "ok":
 			res.ty = j.ret
@@ -820,6 +1097,12 @@ func judgeTyped(c *CheckCtx, rn Runner, tc *typedCase, prop string) *Violation {
 					What:     fmt.Sprintf("row %d `%s` is certainly accepted by the configuration but ti reports: %s", row, s.Text, byRow[row][0].Msg),
 					Observed: clip(out, 2500)}
 			}
+		case prop == "C08" && s.Kind == "cont-ok" && row < firstFail:
+			if len(byRow[row]) > 0 {
+				return &Violation{Sig: "false-alarm:" + s.Feature + ":" + msgTemplate(byRow[row][0].Msg), Kind: "typed", Case: mustJSON(tc),
+					What:     fmt.Sprintf("row %d `%s` continues a call the configuration certainly accepts but ti reports: %s", row, s.Text, byRow[row][0].Msg),
+					Observed: clip(out, 2500)}
+			}
 		case prop == "C08" && s.Kind == "coll" && row < firstFail:
 			c.Event("collection_statements_judged", 1)
 			if len(byRow[row]) > 0 {
@@ -827,7 +1110,24 @@ func judgeTyped(c *CheckCtx, rn Runner, tc *typedCase, prop string) *Violation {
 					What:     fmt.Sprintf("row %d `%s` is a literal/index/growth statement over known values but ti reports: %s", row, s.Text, byRow[row][0].Msg),
 					Observed: clip(out, 2500)}
 			}
-		case prop == "C09" && s.Kind == "probe" && s.Want != nil && row < firstFail:
+		case prop == "C09" && s.Kind == "probe" && s.Leaves != nil && row < firstFail:
+			c.Event("nested_probes_judged", 1)
+			recs := byRow[row]
+			if len(recs) != 1 {
+				return &Violation{Sig: "probe-output:" + s.RetKind, Kind: "typed", Case: mustJSON(tc),
+					What: fmt.Sprintf("row %d `%s`: expected exactly one type line, got %d", row, s.Text, len(recs)), Observed: clip(out, 2500)}
+			}
+			got, okl := typeLeaves(recs[0].Msg)
+			if !okl {
+				c.Event("probe_types_not_parsed", 1)
+				continue
+			}
+			if strings.Join(got, " ") != strings.Join(s.Leaves, " ") {
+				return &Violation{Sig: "wrong-leaves:" + s.RetKind + ":" + strings.Join(s.Leaves, ",") + "=>" + strings.Join(got, ","), Kind: "typed", Case: mustJSON(tc),
+					What:     fmt.Sprintf("row %d `%s`: ti reports %s; the element classes by array depth must be %v", row, s.Text, recs[0].Msg, s.Leaves),
+					Observed: clip(out, 2500)}
+			}
+		case (prop == "C09" || prop == "C10") && s.Kind == "probe" && s.Want != nil && row < firstFail:
 			c.Event("probes_judged", 1)
 			recs := byRow[row]
 			if len(recs) != 1 {
@@ -936,4 +1236,10 @@ func init() {
 		"same generator and model as C07; a call is certain-ok when every receiver class has a declaration whose arity admits it and whose parameter types contain every class of the corresponding argument (a union argument whose variants are all accepted fits); only rows before the first certain-fail row are judged; oracle: no diagnostic on that row. distinct_nontrivial = distinct programs"))
 	register(typedCheck("C09", "inferred types agree with literals and declared return types",
 		"same generator and model as C07; every assignment is followed by a dbtp probe; for rows before the first certain failure the printed type, parsed as a set, must equal the model's: literal classes, element unions of array literals, union of ternary branches, and for certain-ok calls the declared return type with Self, Unify, OptionalUnify, Argument, [T]/TArray and unions resolved as documented (is_conditional results and undocumented names are grey). distinct_nontrivial = distinct programs"))
+}
+
+func sortedCopy(xs []string) []string {
+	o := append([]string{}, xs...)
+	sort.Strings(o)
+	return o
 }
